@@ -42,6 +42,18 @@ func FieldWriters(p *load.Program) map[string][]string {
 						addr = ld.X
 					}
 				}
+				if st, isSt := in.(*ssa.Store); isSt {
+					// a whole object copied from an existing one (`sub := *c`, `*dst = *src`): every field is written
+					if ld, isLd := st.Val.(*ssa.UnOp); isLd && ld.Op == token.MUL {
+						if _, fresh := ld.X.(*ssa.Alloc); !fresh {
+							if named, isN := st.Val.Type().(*types.Named); isN && named.Obj().Pkg() != nil && p.InModule(named.Obj().Pkg()) {
+								if _, isS := named.Underlying().(*types.Struct); isS {
+									add(named.Obj().Name(), "*", name)
+								}
+							}
+						}
+					}
+				}
 				fa, ok := addr.(*ssa.FieldAddr)
 				if !ok {
 					return
@@ -132,6 +144,31 @@ var writersTable = []struct {
 
 func wrt1(c *Ctx) {
 	got := FieldWriters(c.P)
+	// no existing object of these types is copied wholesale: the copy would carry every field along,
+	// including the ones the table says nobody writes
+	byType := map[string]map[string]bool{}
+	var typeNames []string
+	for _, row := range writersTable {
+		tn := row.field[:strings.Index(row.field, ".")]
+		if byType[tn] == nil {
+			byType[tn] = map[string]bool{}
+			typeNames = append(typeNames, tn)
+		}
+		for _, p := range row.props {
+			byType[tn][p] = true
+		}
+	}
+	for _, tn := range typeNames {
+		var ps []string
+		for p := range byType[tn] {
+			ps = append(ps, p)
+		}
+		sort.Strings(ps)
+		mk := len(c.Obs)
+		c.Check(len(got[tn+".*"]) == 0, "copies("+tn+")", token.NoPos, "no existing "+tn+" is copied as a whole into another one",
+			"an existing "+tn+" is copied as a whole by "+strings.Join(got[tn+".*"], ", ")+": every field travels with the copy, including those nobody may write after creation")
+		c.Scope(mk, ps...)
+	}
 	for _, row := range writersTable {
 		may := map[string]bool{}
 		for _, f := range row.may {
